@@ -128,6 +128,120 @@ def extract_idx_code():
     raise RuntimeError("cannot locate the row-zeroing statements of skfem.utils.enforce")
 
 
+def traced_idx_code():
+    """fallback of `extract_idx_code`: run the live enforce() (overwrite=True, on a private copy) with a data
+    array that records its fancy assignments; the first assignment of zeros is the row-zeroing.  Returns
+    None if no such assignment is observed on a probe."""
+    from skfem.utils import enforce
+
+    class Rec(np.ndarray):
+        log = None
+
+        def __setitem__(self, key, val):
+            if Rec.log is not None:
+                Rec.log.append((np.array(key, copy=True), np.array(val, copy=True)))
+            super().__setitem__(key, val)
+
+    def run_idx(A, D):
+        A2 = A.copy()
+        A2.data = A2.data.view(Rec)
+        Rec.log = []
+        try:
+            enforce(A2, np.zeros(A2.shape[0]), D=D, overwrite=True)
+        finally:
+            log, Rec.log = Rec.log, None
+        for key, val in log:
+            if key.dtype.kind in "iu" and key.ndim == 1 and np.all(val == 0):
+                return key
+        raise RuntimeError("no zeroing assignment observed")
+    try:
+        probe = sp.csr_matrix(np.array([[1., 2., 0.], [0., 3., 4.], [5., 0., 6.]]))
+        got = sorted(int(v) for v in run_idx(probe, np.array([1])))
+        if got != [2, 3]:
+            return None
+    except Exception:
+        return None
+    return run_idx
+
+
+def collection_checks(ctx):
+    """the same split named as index array / DofsView / dict of disjoint views / dict of OVERLAPPING views
+    (facet sets sharing corner DOFs, cell sets sharing facet DOFs), as D and as I, through condense, enforce
+    and penalize: all must agree with the index-array form (which the exact correspondence covers)"""
+    import skfem
+    from skfem import Basis, condense, enforce, penalize, solve
+    from skfem.models.poisson import laplace, mass
+    from .. import meshes as M
+    rng = ctx.rng
+    elems = {"line": ["ElementLineP1", "ElementLineP2"], "tri": ["ElementTriP1", "ElementTriP2", "ElementTriCR"],
+             "quad": ["ElementQuad1", "ElementQuad2"], "tet": ["ElementTetP1", "ElementTetP2"],
+             "hex": ["ElementHex1"]}
+    for rep in range(ctx.scale(6, 60)):
+        kind = rng.choice(list(elems))
+        m, info = M.gen_first_order(rng, kind)
+        if m.nelements > 30:
+            continue
+        ename = rng.choice(elems[kind])
+        basis = Basis(m, getattr(skfem, ename)())
+        A = (laplace.assemble(basis) + mass.assemble(basis)).tocsr()
+        b = A @ np.linspace(1.0, 2.0, basis.N)
+        xx = np.array([rng.randint(-4, 4) / 2 for _ in range(basis.N)])
+        bf = [int(f) for f in m.boundary_facets()]
+        rng.shuffle(bf)
+        k = rng.randint(1, len(bf))
+        # three facet sets with common members: their DOF views overlap in the shared facets' and vertices' DOFs
+        parts = [bf[:k], bf[max(0, k - 2):], bf[::2]]
+        dviews = {f"part{i}": basis.get_dofs(facets=np.array(sorted(p), dtype=np.int64)) for i, p in enumerate(parts) if p}
+        Darr = np.unique(np.concatenate([v.flatten() for v in dviews.values()]))
+        if len(Darr) == basis.N or len(Darr) == 0:
+            continue
+        cells = list(range(m.nelements))
+        rng.shuffle(cells)
+        kc = rng.randint(1, len(cells))
+        cparts = [cells[:kc], cells[max(0, kc - 1):kc + 1], cells[:1]]
+        iviews = {f"sub{i}": basis.get_dofs(elements=np.array(sorted(p), dtype=np.int64)) for i, p in enumerate(cparts) if p}
+        Iarr = np.unique(np.concatenate([v.flatten() for v in iviews.values()]))
+        whole = basis.get_dofs(facets=np.array(sorted(set(sum(parts, []))), dtype=np.int64))
+        descr = {"mesh": M.mesh_descr(m), "element": ename, "facet_parts": parts, "cell_parts": cparts}
+        for key, arr, forms in (("D", Darr, {"view": whole, "dict-overlapping": dviews,
+                                               "dict-single": {"w": whole}}),
+                                ("I", Iarr, {"dict-overlapping": iviews})):
+            if len(arr) in (0, basis.N):
+                continue
+            for op in ("condense", "enforce", "penalize"):
+                try:
+                    ref = _apply_bc(op, A, b, xx, {key: arr})
+                except Exception as ex:
+                    ctx.count("collection:reference-raises:" + exc_kind(ex))
+                    continue
+                for fname, spec in forms.items():
+                    ctx.case({"rep": rep, "key": key, "op": op, "form": fname, "seed": ctx.seed}, nontrivial=True)
+                    ctx.count(f"collection:{key}:{fname}")
+                    try:
+                        got = _apply_bc(op, A, b, xx, {key: spec})
+                    except Exception as ex:
+                        ctx.violation(f"{op}({key}=<{fname}>) raised {exc_kind(ex)} where the index-array form works",
+                                      dict(descr, key=key, form=fname, err=repr(ex)),
+                                      {"what": "dof-collection", "form": fname, "key": key})
+                        continue
+                    if got.shape != ref.shape or not np.allclose(got, ref, rtol=1e-10, atol=1e-10, equal_nan=False):
+                        ctx.violation(f"{op}: the split given as {key}=<{fname}> gives another solution than the "
+                                      f"same index set given as an array",
+                                      dict(descr, key=key, form=fname, op=op,
+                                           maxdiff=(float(np.nanmax(np.abs(got - ref))) if got.shape == ref.shape
+                                                    else "shape")),
+                                      {"what": "dof-collection", "form": fname, "key": key})
+
+
+def _apply_bc(op, A, b, xx, kw):
+    from skfem import condense, enforce, penalize, solve
+    if op == "condense":
+        return solve(*condense(A, b, x=xx, **kw))
+    if op == "enforce":
+        return solve(*enforce(A, b, x=xx, **kw))
+    return solve(*penalize(A, b, x=xx, epsilon=1e-14, **kw))
+
+
 def run(ctx):
     from skfem import condense, enforce, penalize, solve
     from skfem.utils import _init_bc
@@ -148,10 +262,15 @@ def run(ctx):
     reqs, post = [], []
     try:
         idx_code = extract_idx_code()
+        ctx.notes["enforce_idx_tie"] = "statements lifted from the live source (AST slice)"
     except Exception as ex:
-        idx_code = None
-        ctx.broken.append({"kind": "translator", "what": "row-zeroing statements of enforce not recognised",
-                           "err": repr(ex)})
+        # the source no longer has the recognised shape (e.g. the arithmetic moved into a helper): observe the
+        # positions the live enforce() zeroes in the data array instead; if that is not observable either, the
+        # row-zeroing is still tied through the exact comparison of enforce()'s whole output (bc.enforce)
+        idx_code = traced_idx_code()
+        ctx.notes["enforce_idx_tie"] = ("AST slice not applicable (" + repr(ex)[:120] + "); " +
+                                        ("positions observed through a recording data array" if idx_code else
+                                         "not observable: covered by the bc.enforce correspondence only"))
     n_cases = ctx.scale(200, 2500)
     for it in range(n_cases):
         if ctx.time_left(0.7) < 0:
@@ -295,6 +414,7 @@ def run(ctx):
         if not (np.allclose(sols[0], sols[1], atol=1e-12) and np.allclose(sols[0], sols[2], atol=1e-12)):
             ctx.violation("condense gives different results for array / DofsView / dict of views",
                           {"mesh": "MeshTri().refined(1)", "element": "ElementTriP2"}, {"what": "dof-collection"})
+        collection_checks(ctx)
         for bad in ({}, {"I": np.array([0]), "D": np.array([1])}):
             try:
                 condense(A, b, **bad)
@@ -371,7 +491,9 @@ def run(ctx):
                      and np.allclose([float(v) for v in unq(out["z"])], impl[2], rtol=1e-9, atol=1e-9), inp,
                      "model B, y, z", "implementation")
         elif kind == "enforce.idx":
-            ctx.corr("bc.enforce.idx", out["idx"] == out["ranges"] and (impl is None or impl == out["idx"]), inp,
+            # (the zeroing is an assignment of one value: the ORDER of the positions is not observable)
+            ctx.corr("bc.enforce.idx", out["idx"] == out["ranges"] and
+                     (impl is None or (isinstance(impl, list) and sorted(impl) == sorted(out["idx"]))), inp,
                      out["idx"], impl)
     if ctx.tier == "thorough" and not getattr(ctx, "no_lean", False):
         ctx.leanchecker(["SkfemVerif.Props.C05"])
